@@ -304,9 +304,9 @@ Definition gc_one (minidle : Z) (name : str) (s : lstate) : lstate :=
   | None => s
   end.
 
-(** Manager.shutdown: exclusive; final GC pass with min-idle 0 *)
+(** Manager.shutdown: exclusive; final GC pass lockGc(0): collects what has been idle for MORE than 0 ns *)
 Definition shutdown_all (s : lstate) : lstate :=
-  let s1 := fold_left (λ s '(name, _), gc_one (-1) name s) (map_to_list (l_map s)) s in
+  let s1 := fold_left (λ s '(name, _), gc_one 0 name s) (map_to_list (l_map s)) s in
   emit EvShutdown (s1 <| l_shut := true |>).
 
 Definition lstep (minidle : Z) (s : lstate) (it : item) : lstate :=
